@@ -30,6 +30,20 @@ type sm9art struct {
 	script []string
 }
 
+// A caller keeps ONE identity buffer (a request field, a receive buffer) and loads identity after identity into it: every
+// identity argument of a non-constructor call travels through the same backing array, whose contents change per call. A
+// callee that remembers the slice instead of the bytes sees the next identity under the old one's name.
+var uidSlotBuf = make([]byte, 0, 16384)
+
+func uidSlot(uid []byte) []byte {
+	if len(uid) == 0 || len(uid) > cap(uidSlotBuf) {
+		return uid
+	}
+	b := uidSlotBuf[:len(uid)]
+	copy(b, uid)
+	return b
+}
+
 type sm9sys struct {
 	sm   *sm9.SignMasterPrivateKey
 	em   *sm9.EncryptMasterPrivateKey
@@ -288,7 +302,7 @@ func (sys *sm9sys) usekey(i int, st Step) *Mismatch {
 			}
 			return nil
 		}
-		return sm9Bool(i, sys.sm.PublicKey().Verify(uid, hid, msg, sig), true, "signature of the parsed key accepted")
+		return sm9Bool(i, sys.sm.PublicKey().Verify(uidSlot(uid), hid, msg, sig), true, "signature of the parsed key accepted")
 	}
 	var k *sm9.EncryptPrivateKey
 	var err error
@@ -300,11 +314,11 @@ func (sys *sm9sys) usekey(i int, st Step) *Mismatch {
 	if mm := sm9NoErr(i, err, "Unmarshal eupriv/"+form); mm != nil {
 		return mm
 	}
-	key, c, err := sm9.WrapKey(sm9ScriptOf(st, "script"), sys.em.PublicKey(), uid, hid, 32)
+	key, c, err := sm9.WrapKey(sm9ScriptOf(st, "script"), sys.em.PublicKey(), uidSlot(uid), hid, 32)
 	if mm := sm9NoErr(i, err, "WrapKey"); mm != nil {
 		return mm
 	}
-	got, err := sm9.UnwrapKey(k, uid, c, 32)
+	got, err := sm9.UnwrapKey(k, uidSlot(uid), c, 32)
 	if mm := sm9NoErr(i, err, "UnwrapKey with the parsed key"); mm != nil {
 		return mm
 	}
@@ -312,11 +326,11 @@ func (sys *sm9sys) usekey(i int, st Step) *Mismatch {
 		mm.Note = "key unwrapped with the parsed decryption key"
 		return mm
 	}
-	ct, err := sm9.EncryptASN1(sm9ScriptOf(st, "script"), sys.em.PublicKey(), uid, hid, msg, nil)
+	ct, err := sm9.EncryptASN1(sm9ScriptOf(st, "script"), sys.em.PublicKey(), uidSlot(uid), hid, msg, nil)
 	if mm := sm9NoErr(i, err, "Encrypt"); mm != nil {
 		return mm
 	}
-	pt, err := sm9.DecryptASN1(k, uid, ct)
+	pt, err := sm9.DecryptASN1(k, uidSlot(uid), ct)
 	if mm := sm9NoErr(i, err, "Decrypt with the parsed key"); mm != nil {
 		return mm
 	}
@@ -375,11 +389,11 @@ func (sys *sm9sys) verify(i int, st Step) *Mismatch {
 	var ok bool
 	switch st.Str("how") {
 	case "func":
-		ok = sm9.Verify(pub, uid, hid, msg, new(big.Int).SetBytes(b[:32]), b[32:])
+		ok = sm9.Verify(pub, uidSlot(uid), hid, msg, new(big.Int).SetBytes(b[:32]), b[32:])
 	case "asn1":
-		ok = sm9.VerifyASN1(pub, uid, hid, msg, b)
+		ok = sm9.VerifyASN1(pub, uidSlot(uid), hid, msg, b)
 	case "method":
-		ok = pub.Verify(uid, hid, msg, b)
+		ok = pub.Verify(uidSlot(uid), hid, msg, b)
 	default:
 		panic("harness: sm9sys: verify how")
 	}
@@ -392,9 +406,9 @@ func (sys *sm9sys) wrap(i int, st Step) *Mismatch {
 	art := &sm9art{kind: "wrap", how: how, uid: uid, hid: hid, klen: klen}
 	var err error
 	if how == "func" {
-		art.key, art.bytes, err = sm9.WrapKey(s, sys.em.PublicKey(), uid, hid, klen)
+		art.key, art.bytes, err = sm9.WrapKey(s, sys.em.PublicKey(), uidSlot(uid), hid, klen)
 	} else {
-		art.key, art.bytes, err = sys.em.PublicKey().WrapKey(s, uid, hid, klen)
+		art.key, art.bytes, err = sys.em.PublicKey().WrapKey(s, uidSlot(uid), hid, klen)
 	}
 	if mm := sm9NoErr(i, err, "WrapKey"); mm != nil {
 		return mm
@@ -419,9 +433,9 @@ func (sys *sm9sys) unwrap(i int, st Step) *Mismatch {
 	b := sm9Tamper(art.bytes, st)
 	var key []byte
 	if art.how == "func" {
-		key, err = sm9.UnwrapKey(k, st.Hex("uid"), b, st.Int("klen"))
+		key, err = sm9.UnwrapKey(k, uidSlot(st.Hex("uid")), b, st.Int("klen"))
 	} else {
-		key, err = k.UnwrapKey(st.Hex("uid"), b, st.Int("klen"))
+		key, err = k.UnwrapKey(uidSlot(st.Hex("uid")), b, st.Int("klen"))
 	}
 	got := "error"
 	if err == nil {
@@ -443,9 +457,9 @@ func (sys *sm9sys) enc(i int, st Step) *Mismatch {
 	art := &sm9art{kind: "ct", uid: uid, hid: hid, msg: msg, mode: mode, enc: enc}
 	var err error
 	if enc == "raw" {
-		art.bytes, err = sm9.Encrypt(s, sys.em.PublicKey(), uid, hid, msg, sm9Opts(mode))
+		art.bytes, err = sm9.Encrypt(s, sys.em.PublicKey(), uidSlot(uid), hid, msg, sm9Opts(mode))
 	} else {
-		art.bytes, err = sm9.EncryptASN1(s, sys.em.PublicKey(), uid, hid, msg, sm9Opts(mode))
+		art.bytes, err = sm9.EncryptASN1(s, sys.em.PublicKey(), uidSlot(uid), hid, msg, sm9Opts(mode))
 	}
 	if mm := sm9NoErr(i, err, "Encrypt"); mm != nil {
 		return mm
@@ -480,9 +494,9 @@ func (sys *sm9sys) dec(i int, st Step) *Mismatch {
 	b := sm9Tamper(art.bytes, st)
 	var msg []byte
 	if art.enc == "raw" {
-		msg, err = sm9.Decrypt(k, st.Hex("uid"), b, sm9Opts(art.mode))
+		msg, err = sm9.Decrypt(k, uidSlot(st.Hex("uid")), b, sm9Opts(art.mode))
 	} else {
-		msg, err = sm9.DecryptASN1(k, st.Hex("uid"), b)
+		msg, err = sm9.DecryptASN1(k, uidSlot(st.Hex("uid")), b)
 	}
 	res := st.Str("res")
 	if res == "open" { // the property leaves the outcome open (EnType is outside the MAC): only "no panic" was required
